@@ -28,6 +28,7 @@ import XotModel.Lemmas.ArenaExamples
 import XotModel.Lemmas.ArenaSim
 import XotModel.Lemmas.ArenaRemoveRoot
 import XotModel.Lemmas.FpxRefineMain
+import XotModel.Lemmas.FpxRefineDedupLoop
 
 namespace XotModel.Props
 open XotModel
@@ -739,6 +740,165 @@ example : (pfxDocForest.createMissingPrefixes pfxEnv 0).2.2 = .ok ∧
     ((pfxDocForest.createMissingPrefixes pfxEnv 0).1.rootOf? 2).bind (·.pathOf 2) = some [1] ∧
     (pfxDocForest.createMissingPrefixes pfxEnv 0).1.roots.map (·.handle) = [0, 4] ∧
     (pfxDocForest.createMissingPrefixes pfxEnv 4).2.2 = .err .notElement := by
+  decide +kernel
+
+/-! ### `deduplicate_namespaces`: the forest model refines the tree model of C15
+
+The forest model (`Forest.deduplicateNamespaces`, `Forest.dedupLoop`, `Forest.dedupCalls` — one pass —,
+Model/FatomSpec2.lean) takes `to_remove` of every pass from the erased root tree (the same
+`dedupToRemove` the tree model uses) and removes through HANDLES, in traversal order, as the Rust does;
+the tree model (`deduplicateNamespaces`, `dedupLoop`, `dedupPass`, Model/Scope.lean, the subject of every
+theorem of Props/C15) names nodes by PATHS of raw child indices, which a removal on an ancestor shifts,
+and therefore removes last entry first.  The theorems below (Lemmas/FpxRefineDedup*.lean) say the two
+agree on every forest satisfying the invariant — removals on different elements touch different child
+lists, two removals on one child list commute (`removeNsKid_comm`) —, pass by pass and for the loop (both
+models give it the size of the erased root tree plus one as fuel).  So the C15 theorems hold of forest
+histories (`C15_forest_dedup_idem`, `C15_forest_dedup_serialises`).  They live here (not in Props/C15,
+which cannot import the forest lemma files next to the parser model) because they are about handles
+staying meaningful: no handle is created, the handles afterwards are the old ones without those of the
+removed namespace nodes, every other parentless tree is untouched.
+
+`r` is the parentless tree containing `node`, `path` the path of `node` in it. -/
+
+/-- ONE PASS (`deduplicate_namespaces_pass`).  Running the calls of one pass (`Forest.dedupCalls`) on a
+    forest with the invariant answers `Ok`; the tree-level pass on `(r.erase, path, S.erase)` (`S` the
+    subtree of `node`) reports a removal exactly if the forest-level call list is not empty, and its
+    tree is the erasure of the new root tree `r'`; `r'` is the root tree of `node` afterwards and `node`
+    is found at the same path; every other parentless tree is untouched, `next` is unchanged; the handles
+    of `r'` are a sublist of the handles of `r` (document order kept, none new), the `(handle, value)`
+    pairs of the nodes that are not namespace nodes are unchanged (`C15_forest_dedup_only_namespace_nodes_go`
+    reads this handle by handle); the path of every node that is not strictly below `node` is unchanged. -/
+theorem C15_forest_dedup_pass_refines_tree (f : Forest) (hi : f.Inv) (env : Env) (node : Nat)
+    (r : HTree) (hr : f.rootOf? node = some r) (path : Path) (hp : r.pathOf node = some path) :
+    ∃ S r' : HTree, r.at? path = some S ∧
+      (f.runCalls (f.dedupCalls env node)).2 = .ok ∧
+      (dedupPass env r.erase path S.erase).2 = !(f.dedupCalls env node).isEmpty ∧
+      (dedupPass env r.erase path S.erase).1 = r'.erase ∧
+      (f.runCalls (f.dedupCalls env node)).1.rootOf? node = some r' ∧
+      r'.pathOf node = some path ∧
+      (f.runCalls (f.dedupCalls env node)).1.roots =
+        f.roots.map (fun y => if (y.pathOf node).isSome then r' else y) ∧
+      (f.runCalls (f.dedupCalls env node)).1.next = f.next ∧
+      r'.handles.Sublist r.handles ∧
+      (hv r').filter HTree.notNsPair = (hv r).filter HTree.notNsPair ∧
+      ∀ x q, r.pathOf x = some q → (path <+: q → q = path) → r'.pathOf x = some q := by
+  obtain ⟨S, r', h1, _, h3, h4, h5, _, h7, h8, h9, h10, h11⟩ := Forest.fpxd_pass hi env hr hp
+  refine ⟨S, r', h1, by rw [h4], by rw [h3]; rfl, h5.symm, h7, h8, by rw [h4], by rw [h4], h9, h10, h11⟩
+
+/-- **`deduplicate_namespaces(node)`: the forest model refines the tree model.**  On a forest with the
+    invariant the call answers `Ok`; the tree model on `(r.erase, path)` returns the erasure of the new
+    root tree `r'` — so every theorem of Props/C15 about `deduplicateNamespaces env r.erase path` is a
+    theorem about the forest after the call —; `r'` is the root tree of `node` afterwards, `node` is
+    found at the same path; every other parentless tree is untouched; `next` is unchanged; the handles
+    of `r'` are a sublist of the handles of `r`; the `(handle, value)` pairs of the nodes that are not
+    namespace nodes are unchanged; the path of every node not strictly below `node` is unchanged. -/
+theorem C15_forest_dedup_refines_tree (f : Forest) (hi : f.Inv) (env : Env) (node : Nat)
+    (r : HTree) (hr : f.rootOf? node = some r) (path : Path) (hp : r.pathOf node = some path) :
+    ∃ r' : HTree,
+      (f.deduplicateNamespaces env node).2 = .ok ∧
+      deduplicateNamespaces env r.erase path = some r'.erase ∧
+      (f.deduplicateNamespaces env node).1.rootOf? node = some r' ∧
+      r'.pathOf node = some path ∧
+      (f.deduplicateNamespaces env node).1.roots =
+        f.roots.map (fun y => if (y.pathOf node).isSome then r' else y) ∧
+      (f.deduplicateNamespaces env node).1.next = f.next ∧
+      r'.handles.Sublist r.handles ∧
+      (hv r').filter HTree.notNsPair = (hv r).filter HTree.notNsPair ∧
+      ∀ x q, r.pathOf x = some q → (path <+: q → q = path) → r'.pathOf x = some q := by
+  obtain ⟨r', h1, h2, _, h4, h5, h6, h7, h8⟩ := Forest.fpxd_deduplicateNamespaces hi env hr hp
+  exact ⟨r', by rw [h1], h2, h4, h5, by rw [h1], by rw [h1], h6, h7, h8⟩
+
+/-- … the loop cut off after ANY number of rounds (the `fuel` of both models): the forest-level loop
+    erases to the tree-level loop with the same fuel. -/
+theorem C15_forest_dedup_passes_refine_tree (f : Forest) (hi : f.Inv) (env : Env) (node fuel : Nat)
+    (r : HTree) (hr : f.rootOf? node = some r) (path : Path) (hp : r.pathOf node = some path) :
+    ∃ r' : HTree,
+      (Forest.dedupLoop env node fuel f).2 = .ok ∧
+      dedupLoop env path fuel r.erase = r'.erase ∧
+      (Forest.dedupLoop env node fuel f).1.rootOf? node = some r' ∧
+      r'.pathOf node = some path ∧
+      (Forest.dedupLoop env node fuel f).1.roots =
+        f.roots.map (fun y => if (y.pathOf node).isSome then r' else y) := by
+  obtain ⟨r', h1, h2, _, h4, h5, _⟩ := Forest.fpxd_loop env node path fuel hi hr hp
+  exact ⟨r', by rw [h1], h2.symm, h4, h5, by rw [h1]⟩
+
+/-- What the unchanged non-namespace `(handle, value)` pairs say handle by handle: a handle of the old
+    root tree that the new root tree lacks was a namespace node; all other handles are kept. -/
+theorem C15_forest_dedup_only_namespace_nodes_go (f : Forest) (hi : f.Inv) (r r' : HTree) (hrm : r ∈ f.roots)
+    (hv' : (hv r').filter HTree.notNsPair = (hv r).filter HTree.notNsPair) :
+    ∀ x ∈ r.handles, x ∉ r'.handles → ∃ p ns, f.value? x = some (.namespace p ns) :=
+  Forest.fpxd_only_namespace_nodes_go hi hrm hv'
+
+/-- COROLLARY (`C15_idem` for forest histories): **a second forest-level call changes nothing** — for
+    every forest with the invariant, every vocabulary, every node argument (live or not); the first
+    pass of the second call finds nothing to remove. -/
+theorem C15_forest_dedup_idem (f : Forest) (hi : f.Inv) (env : Env) (node : Nat) :
+    (f.deduplicateNamespaces env node).1.deduplicateNamespaces env node =
+      ((f.deduplicateNamespaces env node).1, .ok) :=
+  Forest.fpxd_idem hi env node
+
+/-- COROLLARY (`C15_serialises` for forest histories): **a tree that serialised before still
+    serialises** — if the serialiser's `MissingPrefix` checks (`namesWritable` = `to_string` finds a
+    prefix for every element and attribute name) passed on the erased root tree before
+    `deduplicate_namespaces(node)`, at the root or at the call node, they pass on the erased root tree
+    afterwards; more generally for every start path `q` that is not strictly inside the subtree of
+    `node`.  No hypothesis beyond `Forest.Inv`: the tree-level side condition (no element declares a
+    prefix twice) comes from the invariant (`C10_forest_uniqueBelow`). -/
+theorem C15_forest_dedup_serialises (f : Forest) (hi : f.Inv) (env : Env) (node : Nat)
+    (r : HTree) (hr : f.rootOf? node = some r) (path : Path) (hp : r.pathOf node = some path) :
+    ∃ r' : HTree, (f.deduplicateNamespaces env node).1.rootOf? node = some r' ∧ r'.pathOf node = some path ∧
+      (namesWritable env r.erase [] = some true → namesWritable env r'.erase [] = some true) ∧
+      (namesWritable env r.erase path = some true → namesWritable env r'.erase path = some true) ∧
+      ∀ q, (∀ s, q = path ++ s → s = []) → namesWritable env r.erase q = some true →
+        namesWritable env r'.erase q = some true := by
+  obtain ⟨r', h1, h2, h3⟩ := Forest.fpxd_serialises hi env hr hp
+  exact ⟨r', h1, h2, h3 [] (fun _ h => (List.append_eq_nil_iff.1 h.symm).2),
+    h3 path (fun _ h => List.self_eq_append_right.1 h), h3⟩
+
+/-- Non-vacuity: `<r xmlns:q="N" xmlns:r="M"><e xmlns:p="N"><x xmlns:q="M"/></e></r>` (the tree
+    `c15TwoPassWitness` of Props/C15 with handles, plus a second parentless tree).  The call on the root
+    element needs TWO removing passes: pass 1 issues one call (`remove(q)` on `x`, handle 4), pass 2 one
+    call (`remove(p)` on `e`, handle 2), pass 3 none.  The hypotheses hold for the root (path `[]`) and
+    for `e` (handle 2, path `[2]`); the names are writable before and after; the innermost element keeps
+    its handle 4 while its path changes from `[2, 1]` to `[2, 0]`; the handles of the two removed
+    namespace nodes (3 and 5) are gone, the other tree is untouched, a second call changes nothing. -/
+def dedupForest : Forest := { roots := [.node 0 (.element 0) [.node 1 (.namespace 2 2) [],
+  .node 6 (.namespace 3 3) [], .node 2 (.element 0) [.node 3 (.namespace 4 2) [],
+    .node 4 (.element 0) [.node 5 (.namespace 2 3) []]]], .node 7 (.text ['z']) []], next := 8 }
+example : dedupForest.Inv ∧
+    (dedupForest.rootOf? 0).map (·.handle) = some 0 ∧ (dedupForest.rootOf? 0).bind (·.pathOf 0) = some [] ∧
+    (dedupForest.rootOf? 2).map (·.handle) = some 0 ∧ (dedupForest.rootOf? 2).bind (·.pathOf 2) = some [2] :=
+  ⟨(Forest.inv_iff _).mp (by decide), by decide, by decide, by decide, by decide⟩
+/-- A removal call as `(element, prefix)`. -/
+def dedupCallView : Forest.Call → Option (Nat × Nat)
+  | .mapRemove .namespaces h p => some (h, p)
+  | _ => none
+example : (dedupForest.dedupCalls {} 0).map dedupCallView = [some (4, 2)] ∧
+    ((dedupForest.runCalls (dedupForest.dedupCalls {} 0)).1.dedupCalls {} 0).map dedupCallView = [some (2, 4)] ∧
+    (((dedupForest.runCalls (dedupForest.dedupCalls {} 0)).1.runCalls
+      ((dedupForest.runCalls (dedupForest.dedupCalls {} 0)).1.dedupCalls {} 0)).1.dedupCalls {} 0).length = 0 := by
+  decide +kernel
+example : (dedupForest.deduplicateNamespaces {} 0).2 = .ok ∧
+    (dedupForest.deduplicateNamespaces {} 0).1.allHandles = [0, 1, 6, 2, 4, 7] ∧
+    (dedupForest.deduplicateNamespaces {} 0).1.next = 8 ∧
+    ((dedupForest.deduplicateNamespaces {} 0).1.rootOf? 0).map (fun r' => declsOfTree r'.erase) =
+      (dedupForest.rootOf? 0).bind (fun r => (deduplicateNamespaces {} r.erase []).map declsOfTree) ∧
+    ((dedupForest.deduplicateNamespaces {} 0).1.rootOf? 0).map (fun r' => declsOfTree r'.erase) =
+      some [[(2, 2), (3, 3)], [], []] ∧
+    (dedupForest.rootOf? 4).bind (·.pathOf 4) = some [2, 1] ∧
+    ((dedupForest.deduplicateNamespaces {} 0).1.rootOf? 4).bind (·.pathOf 4) = some [2, 0] ∧
+    ((dedupForest.deduplicateNamespaces {} 0).1.rootOf? 2).bind (·.pathOf 2) = some [2] ∧
+    (dedupForest.deduplicateNamespaces {} 0).1.roots.map (·.handle) = [0, 7] ∧
+    ((dedupForest.deduplicateNamespaces {} 0).1.deduplicateNamespaces {} 0).2 = .ok ∧
+    ((dedupForest.deduplicateNamespaces {} 0).1.deduplicateNamespaces {} 0).1.allHandles = [0, 1, 6, 2, 4, 7] ∧
+    ((dedupForest.deduplicateNamespaces {} 0).1.dedupCalls {} 0).length = 0 := by
+  decide +kernel
+example : (dedupForest.rootOf? 0).bind (fun r => namesWritable {} r.erase []) = some true ∧
+    ((dedupForest.deduplicateNamespaces {} 0).1.rootOf? 0).bind (fun r' => namesWritable {} r'.erase []) =
+      some true ∧
+    ((dedupForest.deduplicateNamespaces {} 2).1.rootOf? 2).bind (fun r' => namesWritable {} r'.erase [2]) =
+      some true ∧
+    (dedupForest.deduplicateNamespaces {} 2).1.allHandles = [0, 1, 6, 2, 3, 4, 5, 7] := by
   decide +kernel
 
 /-! ### The xml:id index: `xml_id_node` never hands out a removed node
